@@ -56,6 +56,10 @@ func schedOverlay(c *Ctx, tag string, files []string, harnessPkgs []string) *vc.
 }
 
 func walkCheck(prop string, sigPrefixes []string, quickBound, thoroughBound int) CheckFunc {
+	return walkCheckBudget(prop, sigPrefixes, quickBound, thoroughBound, 50, 540)
+}
+
+func walkCheckBudget(prop string, sigPrefixes []string, quickBound, thoroughBound, quickBudget, thoroughBudget int) CheckFunc {
 	return func(c *Ctx) {
 		files := []string{"internal/dag/graph_walker.go", "internal/worker/task_worker_pool.go"}
 		ov := schedOverlay(c, "sched", files, []string{"walk"})
@@ -67,9 +71,9 @@ func walkCheck(prop string, sigPrefixes []string, quickBound, thoroughBound int)
 			c.R.BrokenCheck("%v", err)
 			return
 		}
-		bound, budget := quickBound, 50
+		bound, budget := quickBound, quickBudget
 		if c.Thorough {
-			bound, budget = thoroughBound, 540
+			bound, budget = thoroughBound, thoroughBudget
 		}
 		env := map[string]string{"VERIF_PROP": prop, "VERIF_TIER": c.Tier, "VERIF_BOUND": fmt.Sprint(bound), "VERIF_BUDGET_S": fmt.Sprint(budget), "GOMAXPROCS": "1"}
 		sub := vc.NewReport(prop, c.Tier)
